@@ -20,9 +20,10 @@ ASSUMPTIONS = [
 ]
 BOUNDS = {
     "quick": "sync points: (2 items,2 threads) bound 2; (3,2),(2,3),(1,2),(0,2),(3,1) bound 1; fine (line-level) points: (2,2) bound 1",
-    "thorough": "sync points: (2,2) bound 3; (3,3),(3,2),(2,3) bound 2; fine points: (2,2) bound 2, (3,2) bound 1",
+    "thorough": "sync points: (2,2) bound 3 for every functor; (3,2),(2,3) bound 2 for gen_all/list/raise1; (3,3) bound 2 and (4,2) bound 1 for gen_all; fine points: (2,2) bound 2 (gen_all, list), (3,2) bound 1; no-len iterable (3,2) bound 2",
 }
 
+TIME_CAP = {"thorough": 2400}
 FUNCTORS = ("gen_all", "gen_alt", "list", "none", "raise1")
 
 
@@ -40,9 +41,11 @@ def configs(tier):
     else:
         for f in FUNCTORS:
             out.append((2, 2, f, "sync", 3))
-        for (n, t) in [(3, 3), (3, 2), (2, 3), (4, 2)]:
-            for f in ("gen_all", "gen_alt", "list", "raise1"):
+        for (n, t) in [(3, 2), (2, 3)]:
+            for f in ("gen_all", "list", "raise1"):
                 out.append((n, t, f, "sync", 2))
+        out.append((3, 3, "gen_all", "sync", 2))
+        out.append((4, 2, "gen_all", "sync", 1))
         out.append((2, 2, "gen_all", "fine", 2))
         out.append((2, 2, "list", "fine", 2))
         out.append((3, 2, "gen_all", "fine", 1))
